@@ -48,16 +48,15 @@ Prologue == <<
                 [k |-> "gov_toggle", from |-> "a1", id |-> 0],
                 [k |-> "gov_vote", from |-> "v1", id |-> 1, opt |-> "yes"], [k |-> "gov_vote", from |-> "v2", id |-> 1, opt |-> "yes"],
                 [k |-> "gov_vote", from |-> "v3", id |-> 1, opt |-> "yes"]>>),
-    Blk(61000, <<[k |-> "send", from |-> "a5", to |-> "a4", amt |-> "1000"]>>),
-    [ev |-> "export_import"] >>
+    Blk(61000, <<[k |-> "send", from |-> "a5", to |-> "a4", amt |-> "1000"], [k |-> "spray", from |-> "a3", salt |-> 0]>>) >>
+    \o (IF Exports THEN <<[ev |-> "export_import"]>> ELSE <<>>)
 
-Init == /\ hist = (IF Exports THEN Prologue ELSE <<>>)
-        /\ nv = (IF Exports THEN 2 ELSE 0) /\ nc = (IF Exports THEN 1 ELSE 0) /\ nl = (IF Exports THEN 3 ELSE 0)
-        /\ np = (IF Exports THEN 1 ELSE 0) /\ blocks = (IF Exports THEN 4 ELSE 0)
-        /\ dels = {<<"v1", 0>>, <<"v2", 1>>, <<"v3", 2>>} \cup (IF Exports THEN {<<"a6", 0>>} ELSE {})  \* (delegator, validator index) pairs believed to exist
-        /\ vfund = (IF Exports THEN {<<"vx1", "a1">>, <<"vx2", "a2">>} ELSE {})     \* (vesting account, funder) pairs
-        /\ daoh = (IF Exports THEN {"a5"} ELSE {})                                  \* accounts believed to hold DAO shares
-        /\ liq = (IF Exports THEN {<<0, "a1">>, <<2, "a3">>} ELSE {})                                            \* (liquid denom id, holder) pairs believed to exist
+Init == /\ hist = Prologue
+        /\ nv = 2 /\ nc = 1 /\ nl = 3 /\ np = 1 /\ blocks = 4
+        /\ dels = {<<"v1", 0>>, <<"v2", 1>>, <<"v3", 2>>} \cup {<<"a6", 0>>}  \* (delegator, validator index) pairs believed to exist
+        /\ vfund = {<<"vx1", "a1">>, <<"vx2", "a2">>}     \* (vesting account, funder) pairs
+        /\ daoh = {"a5"}                                  \* accounts believed to hold DAO shares
+        /\ liq = {<<0, "a1">>, <<2, "a3">>}                                            \* (liquid denom id, holder) pairs believed to exist
 
 \* an existing delegation most of the time, an arbitrary pair otherwise
 Del(h) == IF Pick(1..5, h) # 1 THEN Pick(dels, h) ELSE <<Pick(Accts, h), Pick(0..2, h)>>
@@ -68,7 +67,9 @@ Liq(h) == IF liq # {} /\ Pick(1..5, h) # 1 THEN Pick(liq, h) ELSE <<Pick(0..1, h
 \* one transaction; `slot` distinguishes the draws inside one block
 TxOfKind(h, k, f, d, q, vf) ==
     CASE k = 1  -> [k |-> "send", from |-> f, to |-> AnyAcct(h), amt |-> Pick(Amts, h)]
-      [] k = 2  -> [k |-> "multisend", from |-> f, to |-> AnyAcct(h), to2 |-> Pick(Accts, h), amt |-> Pick(Amts, h)]
+      [] k = 2  -> [k |-> "multisend", from |-> f, to |-> AnyAcct(h), to2 |-> Pick(Accts, h), amt |-> Pick(Amts \ {"1"}, h)]
+      \* a transaction that fails ValidateBasic (a zero output): legal in a block of this chain (no-op ProcessProposal)
+      [] k = 32 -> [k |-> "multisend", from |-> f, to |-> AnyAcct(h), to2 |-> Pick(Accts, h), amt |-> "1"]
       [] k = 3  -> [k |-> "dao_fund", from |-> f, amt |-> Pick(Amts, h)]
       [] k = 4  -> [k |-> "dao_xfer", from |-> DaoH(h), to |-> Pick(Accts, h)]
       [] k = 5  -> [k |-> "dao_xfer_ratio", from |-> DaoH(h), to |-> Pick(Accts, h), pct |-> Pick({1, 33, 50, 100}, h)]
@@ -100,10 +101,12 @@ TxOfKind(h, k, f, d, q, vf) ==
       [] k = 26 -> [k |-> "pc_setwd", from |-> f, to |-> Pick(Accts, h)]
       [] k = 28 -> [k |-> "deploy_empty", from |-> f]
       [] k = 29 -> [k |-> "gov_toggle", from |-> f, id |-> q[1]]
+      [] k = 30 -> [k |-> "spray", from |-> f, salt |-> 0]
+      [] k = 31 -> [k |-> "gov_evm_params", from |-> f, fail |-> (Pick(1..2, h) = 1)]
       [] k = 27 -> [k |-> "convert_coin", from |-> q[2], to |-> Pick(Accts, h), id |-> q[1], amt |-> Pick({"1000", "400000000000000000000"}, h)]
 
-KindOf(k0) == IF k0 <= 29 THEN k0 ELSE IF k0 <= 31 THEN 18 ELSE IF k0 <= 33 THEN 19 ELSE IF k0 = 34 THEN 17 ELSE 15
-RandTx(h, slot) == TxOfKind(h, KindOf(Pick(1..35, h)), Pick(Accts, h), Del(h), Liq(h), Vf(h))
+KindOf(k0) == IF k0 <= 32 THEN k0 ELSE IF k0 <= 34 THEN 18 ELSE IF k0 <= 36 THEN 19 ELSE IF k0 = 37 THEN 17 ELSE IF k0 = 38 THEN 15 ELSE 8
+RandTx(h, slot) == TxOfKind(h, KindOf(Pick(1..40, h)), Pick(Accts, h), Del(h), Liq(h), Vf(h))
 
 NewVest(txs)   == Cardinality({j \in DOMAIN txs : txs[j].k = "vest_create" /\ txs[j].merge = FALSE})
 Count(txs, kk) == Cardinality({j \in DOMAIN txs : txs[j].k = kk})
@@ -114,9 +117,9 @@ WithTopUps(txs) ==
           IF j = 0 THEN <<>>
           ELSE IF txs[j].k = "vest_create" /\ txs[j].merge = FALSE
                THEN F[j-1] \o <<txs[j], [k |-> "send", from |-> txs[j].from, to |-> txs[j].to, amt |-> "1000000000000000000"]>>
-               ELSE IF txs[j].k = "gov_toggle"
+               ELSE IF txs[j].k \in {"gov_toggle", "gov_evm_params"}
                THEN F[j-1] \o <<txs[j]>> \o [v \in 1..3 |-> [k |-> "gov_vote", from |-> "v" \o ToString(v),
-                                                             id |-> np + 1 + Cardinality({y \in 1..(j-1) : txs[y].k \in {"gov_submit", "gov_toggle"}}), opt |-> "yes"]]
+                                                             id |-> np + 1 + Cardinality({y \in 1..(j-1) : txs[y].k \in {"gov_submit", "gov_toggle", "gov_evm_params"}}), opt |-> "yes"]]
                ELSE Append(F[j-1], txs[j])
     IN F[Len(txs)]
 
@@ -135,7 +138,7 @@ Block ==
        /\ nv' = nv + NewVest(one)
        /\ nc' = nc + Count(one, "deploy")
        /\ nl' = nl + Count(one, "liquidate")
-       /\ np' = np + Count(one, "gov_submit") + Count(one, "gov_toggle")
+       /\ np' = np + Count(one, "gov_submit") + Count(one, "gov_toggle") + Count(one, "gov_evm_params")
        /\ blocks' = blocks + 1
        /\ dels' = dels \cup {<<one[j].from, one[j].val>> : j \in {x \in DOMAIN one : one[x].k \in {"delegate", "pc_delegate"}}}
                         \cup {<<one[j].from, one[j].val2>> : j \in {x \in DOMAIN one : one[x].k = "redelegate"}}
